@@ -1088,8 +1088,10 @@ class PseudoNetCDFFile(PseudoNetCDFSelfReg, object):
             val = vardict[key]
             # a view of an input ('C = A[:]', 'C = np.asarray(A)'): as for a
             # bare name, the result must not write through to the input
+            # (unary masked operations, 'C = -A', hand on the operand's mask)
             aliased = isinstance(val, np.ndarray) and any([
-                np.may_share_memory(val, v)
+                np.may_share_memory(val, v) or np.may_share_memory(
+                    np.ma.getmask(val), np.ma.getmask(v))
                 for v in self.variables.values()
                 if isinstance(v, np.ndarray)
             ])
